@@ -43,22 +43,28 @@ RelayEvents(s) ==
 HookMsgs(signer, msgs) == [kind |-> "msgs", signer |-> signer, msgs |-> msgs]
 Hooks == { NoHook,
            [kind |-> "undecodable", signer |-> "", msgs |-> << >>],
-           [kind |-> "badSig", signer |-> "u1", msgs |-> << [to |-> "u3", denom |-> D1, amt |-> 1] >>],
-           HookMsgs("u1", << [to |-> "u3", denom |-> D1, amt |-> 1] >>),
-           HookMsgs("u1", << [to |-> "u3", denom |-> D1, amt |-> 3] >>),
-           HookMsgs("u1", << [to |-> "u3", denom |-> D1, amt |-> 1], [to |-> "u3", denom |-> D1, amt |-> 3] >>),
-           HookMsgs("u1", << [to |-> "u3", denom |-> D1, amt |-> 1], [to |-> "panic", denom |-> D1, amt |-> 1] >>),
-           HookMsgs("u2", << [to |-> "u3", denom |-> N1, amt |-> 1] >>) }
+           [kind |-> "badSig", signer |-> "u1", msgs |-> << [kind |-> "send", to |-> "u3", denom |-> D1, amt |-> 1] >>],
+           HookMsgs("u1", << [kind |-> "send", to |-> "u3", denom |-> D1, amt |-> 1] >>),
+           HookMsgs("u1", << [kind |-> "send", to |-> "u3", denom |-> D1, amt |-> 3] >>),
+           HookMsgs("u1", << [kind |-> "send", to |-> "u3", denom |-> D1, amt |-> 1], [kind |-> "send", to |-> "u3", denom |-> D1, amt |-> 3] >>),
+           HookMsgs("u1", << [kind |-> "send", to |-> "u3", denom |-> D1, amt |-> 1], [kind |-> "send", to |-> "panic", denom |-> D1, amt |-> 1] >>),
+           HookMsgs("u2", << [kind |-> "send", to |-> "u3", denom |-> N1, amt |-> 1] >>),
+           \* hooks that send (part of) the deposit straight back to the L1
+           HookMsgs("u1", << [kind |-> "withdraw", to |-> "u2", denom |-> D1, amt |-> 1] >>),
+           HookMsgs("u1", << [kind |-> "withdraw", to |-> "u2", denom |-> D1, amt |-> 1], [kind |-> "withdraw", to |-> "u3", denom |-> D1, amt |-> 1] >>),
+           HookMsgs("u1", << [kind |-> "withdraw", to |-> "u2", denom |-> D1, amt |-> 1], [kind |-> "send", to |-> "u3", denom |-> D1, amt |-> 3] >>),
+           HookMsgs("u1", << [kind |-> "withdraw", to |-> "u2", denom |-> D1, amt |-> 3] >>),
+           HookMsgs("u1", << [kind |-> "withdraw", to |-> "u2", denom |-> N1, amt |-> 1] >>) }
 Faults == {"none", "mintErr", "mintPanic", "sendErr", "sendPanic"}
 DepositEvents(s) ==
   LET q == s.seqL1 IN
   (IF q <= 2 THEN
      {Dep("e1", q, "u2", to, D1, amt, "d1", h, "none") : to \in {"u1", "bad:notbech32", "opchild"}, amt \in {0, 2}, h \in Hooks}
-     \cup {Dep("e1", q, "u2", "u1", D1, amt, "d1", h, f) : amt \in {0, 2}, h \in {NoHook, HookMsgs("u1", << [to |-> "u3", denom |-> D1, amt |-> 1] >>)}, f \in Faults}
+     \cup {Dep("e1", q, "u2", "u1", D1, amt, "d1", h, f) : amt \in {0, 2}, h \in {NoHook, HookMsgs("u1", << [kind |-> "send", to |-> "u3", denom |-> D1, amt |-> 1] >>)}, f \in Faults}
      \cup {Dep("e1", q, "bad:empty", "u1", D1, 1, "d1", NoHook, "none"), Dep("e1", q, "u2", "u1", "bad:denom", 1, "d1", NoHook, "none"),
            Dep("e1", q, "u2", "u1", D1, 1, "bad:denom", NoHook, "none"), Dep("e1", q, "u2", "u1", D1, 1, "d2", NoHook, "none"),
            Dep("e1", q, "u2", "opchild", D1, 1, "d2", NoHook, "none"), Dep("e1", q, "u2", "bad:notbech32", D1, 0, "d2", NoHook, "none"),
-           Dep("e1", q, "u2", "u1", D1, 2, "d2", HookMsgs("u1", << [to |-> "u3", denom |-> D1, amt |-> 3] >>), "none")}
+           Dep("e1", q, "u2", "u1", D1, 2, "d2", HookMsgs("u1", << [kind |-> "send", to |-> "u3", denom |-> D1, amt |-> 3] >>), "none")}
    ELSE {})
   \cup {Wd(a, "u2", d, n) : a \in {"u1", "u3"}, d \in {D1, N1, D2}, n \in {0, 1, 3}}
   \cup {Wd("u1", "u2", D1, 4)}           \* 4 units = 2^64: the L1 could never pay it
@@ -122,14 +128,17 @@ OnlyExecutors(s, o, t) == IsDeposit(o) => IsExecutor(s, o.e.signer)
 
 (* C07 *)
 SumBal(s, d) == LET RECURSIVE Sum(_) Sum(T) == IF T = {} THEN 0 ELSE LET x == CHOOSE y \in T : TRUE IN s.bal[x][d] + Sum(T \ {x}) IN Sum(DOMAIN s.bal)
+RECURSIVE SumSeq(_, _)
+SumSeq(q, i) == IF i > Len(q) THEN 0 ELSE q[i] + SumSeq(q, i + 1)
+HookWithdrawn(o, d) == SumSeq([i \in 1..Len(o.resp.hookWds) |-> IF o.resp.hookWds[i].denom = d THEN o.resp.hookWds[i].amt ELSE 0], 1)
 Outcome(s, o, t) ==
   Processed(o) =>
     LET e == o.e credited == o.resp.ev.success IN
     IF credited
-    THEN /\ t.supply[e.denom] = s.supply[e.denom] + e.amt
-         /\ ~o.resp.wd.some /\ t.seqL2 = s.seqL2
+    THEN /\ t.supply[e.denom] = s.supply[e.denom] + e.amt - HookWithdrawn(o, e.denom)
+         /\ ~o.resp.wd.some /\ t.seqL2 = s.seqL2 + Len(o.resp.hookWds)
          /\ (e.hook.kind = "none" => t.bal = Credit(s.bal, e.to, e.denom, e.amt))
-    ELSE /\ t.supply = s.supply /\ t.bal = s.bal
+    ELSE /\ t.supply = s.supply /\ t.bal = s.bal /\ o.resp.hookWds = << >>
          /\ o.resp.wd.some /\ o.resp.wd.seq = s.seqL2 /\ t.seqL2 = s.seqL2 + 1
          /\ o.resp.wd.from = e.to /\ o.resp.wd.to = e.from /\ o.resp.wd.amt = e.amt /\ o.resp.wd.denom = e.denom
 DepositNeverStalls(s, o, t) ==
@@ -149,13 +158,20 @@ WithdrawExact(s, o, t) ==
       /\ Has(s.pairs, e.denom) /\ o.resp.ev.base = s.pairs[e.denom] /\ o.resp.ev.amt = e.amt /\ o.resp.ev.from = e.signer /\ o.resp.ev.to = e.to
       /\ e.amt > 0 /\ s.bal[e.signer][e.denom] >= e.amt
 PairImmutable(s, o, t) == \A d \in DOMAIN s.pairs : Has(t.pairs, d) /\ t.pairs[d] = s.pairs[d]
+(* the withdrawals a step announces (user withdrawal, refund, withdrawals made by a deposit hook), in order *)
+Announced(o) ==
+  IF IsOK(o, "InitiateTokenWithdrawal") THEN << o.resp.ev >>
+  ELSE IF Processed(o) THEN o.resp.hookWds \o (IF o.resp.wd.some THEN << o.resp.wd >> ELSE << >>)
+  ELSE << >>
 SeqL2OnlyByWithdrawals(s, o, t) ==
-  (t.seqL2 # s.seqL2) => (t.seqL2 = s.seqL2 + 1 /\ (IsOK(o, "InitiateTokenWithdrawal") \/ (Processed(o) /\ o.resp.wd.some)))
+  \* gap-free shared sequence: the step consumes exactly the sequences s.seqL2 .. of the withdrawals it announces
+  /\ t.seqL2 = s.seqL2 + Len(Announced(o))
+  /\ \A i \in 1..Len(Announced(o)) : Announced(o)[i].seq = s.seqL2 + i - 1
 BridgedSupplyDelta(s, o, t) ==
   \A d \in {D1, D2} :
      t.supply[d] - s.supply[d] =
         (IF Processed(o) /\ o.e.denom = d /\ o.resp.ev.success THEN o.e.amt ELSE 0)
-      - (IF IsOK(o, "InitiateTokenWithdrawal") /\ o.e.denom = d THEN o.e.amt ELSE 0)
+      - SumSeq([i \in 1..Len(Announced(o)) |-> IF Announced(o)[i].denom = d /\ ~(Processed(o) /\ o.resp.wd.some) THEN Announced(o)[i].amt ELSE 0], 1)
 NoEffectOnReject(s, o, t) == ~o.ok => t = s
 
 (* C12 (L2 part) *)
